@@ -269,6 +269,82 @@ func runC17(c *Ctx) {
 	if c.thorough() {
 		workers, rounds = 32, 60
 	}
+	// accounts filled from one list the caller owns (Add(list...)): each account has its own list afterwards - adding
+	// to one, or encoding one (which sorts in place), changes neither the caller's list nor another account's
+	{
+		mkE := func() []*jwt.Export {
+			l := make([]*jwt.Export, 0, 8)
+			for _, sub := range []string{"zz.tmpl", "mm.tmpl", "aa.tmpl"} {
+				l = append(l, &jwt.Export{Subject: jwt.Subject(sub), Type: jwt.Stream})
+			}
+			return l
+		}
+		mkI := func() []*jwt.Import {
+			l := make([]*jwt.Import, 0, 8)
+			for _, sub := range []string{"zz.imp", "mm.imp", "aa.imp"} {
+				l = append(l, &jwt.Import{Subject: jwt.Subject(sub), Account: kr.by["account"].pub, Type: jwt.Stream})
+			}
+			return l
+		}
+		subjE := func(l []*jwt.Export) string {
+			var out []string
+			for _, e := range l {
+				if e == nil {
+					out = append(out, "<nil>")
+					continue
+				}
+				out = append(out, string(e.Subject))
+			}
+			return strings.Join(out, ",")
+		}
+		subjI := func(l []*jwt.Import) string {
+			var out []string
+			for _, e := range l {
+				out = append(out, string(e.Subject))
+			}
+			return strings.Join(out, ",")
+		}
+		te, ti := mkE(), mkI()
+		var acs []*jwt.AccountClaims
+		for i := 0; i < workers; i++ {
+			ac := jwt.NewAccountClaims(kr.by["account"].pub)
+			ac.Exports.Add(te...)
+			ac.Imports.Add(ti...)
+			acs = append(acs, ac)
+		}
+		beforeT := subjE(te) + "|" + subjI(ti) + "|" + subjE(te[:cap(te)][:4]) + "|" + subjE(acs[1].Exports)
+		acs[0].Exports.Add(&jwt.Export{Subject: "private.zero", Type: jwt.Stream})
+		acs[0].Imports.Add(&jwt.Import{Subject: "private.imp", Account: kr.by["account"].pub, Type: jwt.Stream})
+		acs[0].Encode(kr.by["operator"].kp)
+		func() {
+			defer func() { recover() }()
+			afterT := subjE(te) + "|" + subjI(ti) + "|" + subjE(te[:cap(te)][:4]) + "|" + subjE(acs[1].Exports)
+			c.sum.ImplChecks++
+			if afterT != beforeT {
+				c.violation("C17: adding to / encoding one account changed the list the caller filled it from, or another account's list (objects filled with Add(list...) share memory)",
+					map[string]interface{}{"before": beforeT, "after": afterT})
+			}
+		}()
+		// and all of them encoded at once (race detector)
+		var wg sync.WaitGroup
+		for i := 1; i < len(acs); i++ {
+			wg.Add(1)
+			go func(ac *jwt.AccountClaims, i int) {
+				defer wg.Done()
+				ac.Exports.Add(&jwt.Export{Subject: jwt.Subject(fmt.Sprintf("private.%d", i)), Type: jwt.Stream})
+				ac.Encode(kr.by["operator"].kp)
+			}(acs[i], i)
+		}
+		wg.Wait()
+		for i := 1; i < len(acs); i++ {
+			c.sum.ImplChecks++
+			if n := len(acs[i].Exports); n != 4 || !strings.Contains(subjE(acs[i].Exports), fmt.Sprintf("private.%d", i)) {
+				c.violation("C17: accounts filled from one caller-owned list and then used concurrently hold one another's entries",
+					map[string]interface{}{"account": i, "exports": subjE(acs[i].Exports)})
+			}
+		}
+		c.count("accounts_filled_from_one_list")
+	}
 	distinct := map[string]bool{}
 	for _, procs := range []int{1, 2, 4, 16} {
 		old := runtime.GOMAXPROCS(procs)
